@@ -443,6 +443,15 @@ def r4_regeneration_source(repo=None):
             if loop is not None and any(isinstance(x, ast.Name) and x.id in sub_lists for x in ast.walk(loop.iter)):
                 verdict = ("ok", "looks in every sub-directory (loop over `%s`) before giving up" % norm(ast.unparse(loop.iter))[:50])
                 break
+            # the same search written as a comprehension / generator over the sub-directories (consumed by next / any / a loop)
+            comp = parents.get(c)
+            while comp is not None and not (isinstance(comp, (ast.GeneratorExp, ast.ListComp)) and any(
+                    isinstance(x, ast.Name) and x.id == d for g_ in comp.generators for x in ast.walk(g_.target))):
+                comp = parents.get(comp)
+            if comp is not None and not any(g_.ifs for g_ in comp.generators) and any(
+                    isinstance(x, ast.Name) and x.id in sub_lists for g_ in comp.generators for x in ast.walk(g_.iter)):
+                verdict = ("ok", "looks in every sub-directory (`%s`) before giving up" % norm(ast.unparse(comp.generators[0].iter))[:50])
+                break
             picks = [a for a in ast.walk(fn) if isinstance(a, ast.Assign) and isinstance(a.targets[0], ast.Name) and a.targets[0].id == d
                      and isinstance(a.value, ast.Subscript) and isinstance(a.value.value, ast.Name) and a.value.value.id in sub_lists
                      and not isinstance(a.value.slice, ast.Slice)]
